@@ -166,7 +166,36 @@ func checkC19(c *CheckCtx) error {
 	if err := c.runSeq(reformattedStandalone()); err != nil {
 		return err
 	}
+	if err := c.repro(siblingNames()...); err != nil {
+		return err
+	}
 	return c.repro(reproK8())
+}
+
+// siblingNames: subtests whose names differ only in characters that some file systems refuse
+// (< > : " | ? * backslash) each own their standalone files: the k-th call of one never reads or
+// writes the other's file.
+func siblingNames() []*Scenario {
+	var out []*Scenario
+	for i, pair := range [][2]string{{"a<b", "a>b"}, {"x:y", "x|y"}, {"q?", "q*"}, {"say \"hi\"", "say 'hi'"}, {"back\\slash", "back:slash"}} {
+		sc := &Scenario{ID: fmt.Sprintf("sib%d", i), Configs: stdConfigs(), Program: []string{"TestA", "TestA/" + pair[0], "TestA/" + pair[1]}}
+		mk := func() []*Step {
+			var st []*Step
+			for k, n := range pair {
+				name := "TestA/" + n
+				st = append(st, &Step{Op: "begin", Name: name},
+					&Step{Op: "match", Name: name, API: "ssnap", Cfg: "c", Val: strVal(fmt.Sprintf("value of sibling %d", k))},
+					&Step{Op: "match", Name: name, API: "sjson", Cfg: "c", Val: strVal(fmt.Sprintf(`{"sibling":%d}`, k))},
+					&Step{Op: "end", Name: name})
+			}
+			return st
+		}
+		sc.Procs = append(sc.Procs, &Proc{Spec: procSpec("default"), Steps: mk()})
+		sc.Procs = append(sc.Procs, &Proc{Spec: procSpec("ci"), Steps: mk()})
+		sc.Note = fmt.Sprintf("sibling subtests %q and %q with standalone snapshots: record, replay", pair[0], pair[1])
+		out = append(out, sc)
+	}
+	return out
 }
 
 // reformattedStandalone: one standalone JSON file addressed through Configs that differ only in
